@@ -404,3 +404,22 @@ pub open spec fn tuple_edges<T: PartialOrd + Send, A>(v: Seq<(T, T)>) -> Seq<Edg
     Seq::new(v.len(), |i: int| Edge { u: v[i].0, v: v[i].1, attributes: None, weight: f64_nan() })
 }
 
+
+// ---- new_from_nodes_and_edges as a relation: an empty graph with `specs`, the nodes added, then the batch of edges ----
+pub open spec fn nfne_rel<T: Eq + PartialOrd + Send + Sync, A: Clone>(node_names: Seq<T>, es: Seq<Edge<T, A>>, specs: GraphSpecs, r: Result<Graph<T, A>, Error>) -> bool {
+    exists|g1: Graph<T, A>, g2: Graph<T, A>, r2: Result<(), Error>| {
+        &&& g1.wf_nodes() && g1.wf_estore() && g1.edges_map@.len() == 0 && g1.specs == specs
+        &&& forall|j: int| 0 <= j < node_names.len() ==> g1.knows(#[trigger] node_names[j])
+        &&& #[trigger] batch_rel(g1, es, g2, r2)
+        &&& (r2.is_ok() ==> r.is_ok() && r.unwrap() == g2)
+        &&& (r2.is_err() ==> r.is_err())
+    }
+}
+
+pub open spec fn node_names_of<T: Send, A>(v: Seq<Arc<Node<T, A>>>) -> Seq<T> {
+    Seq::new(v.len(), |i: int| v[i].name)
+}
+
+pub open spec fn spec_reversed<T: PartialOrd + Send, A>(e: Edge<T, A>) -> Edge<T, A> {
+    Edge { u: e.v, v: e.u, attributes: e.attributes, weight: e.weight }
+}
